@@ -130,4 +130,17 @@ var properties = map[string]*propDef{
 			QuickBudget: 20 * time.Second, QuickWorkers: 8, ThoroughBudget: 10 * time.Minute, ThoroughWorkers: 16,
 		}},
 	},
+	"C09": {
+		Level: "exploration",
+		Rule: "cases are rapid-generated task sets (writer tasks on their own index groups with auto/explicit commits and always/lazy persistence, reader tasks with reads and fixed-span sweeps, a deleter on preloaded data, a GC task, a channel create/write/delete task) run as goroutines under the seeded scheduler (random / sticky / PCT strategies, random subsets of yield classes, optional map-order permutation and stall quanta); evaluations counts schedules executed; non-trivial = >=2 tasks and >=40 scheduling decisions; distinct = distinct hashes of the (goroutine, yield label) sequence the scheduler released",
+		Real:  cesiumReal, Stub: cesiumStub,
+		Assumptions: []string{
+			"linearizability is checked per channel (porcupine, histories of successful operations stamped with a global event sequence; multi-channel reads are not assumed atomic across channels); writers use sync mode so a write's effect lies inside its call",
+			"deletes that lose against concurrent users may fail and are then excluded from the history",
+			"the -race unit re-runs the same harness with the race detector; it does not replay exactly (the race runtime perturbs scheduling)",
+			"third-party goroutines (zap, errgroup internals) are scheduled by the Go runtime inside the bubble",
+		},
+		RequiredProbes: []string{"yield_lock", "yield_chan", "yield_fs", "yield_atomic", "history_ops_checked", "delete_ok", "gc_pass"},
+		Units: []unit{cesiumUnit("cesium-conc", "c09")},
+	},
 }
